@@ -37,6 +37,7 @@ import (
 	"github.com/crossplane/crossplane/internal/xpkg/parser/examples"
 	xpkgyaml "github.com/crossplane/crossplane/internal/xpkg/parser/yaml"
 	"github.com/crossplane/crossplane/verifh/kit"
+	"github.com/crossplane/crossplane/verifh/sim"
 )
 
 func coreStatus(s string) corev1.ConditionStatus { return corev1.ConditionStatus(s) }
@@ -720,7 +721,22 @@ func (rn *run) runSig(i int, name string) {
 	established := false
 	for k, what := range s.Schedule {
 		if what == "sig" {
+			// one API call of this signature reconcile may fail: plain API errors and the errors of
+			// a discovery / aggregation layer that hiccups (kind not served, 503, 404)
+			faulted := ""
+			if r.IntN(3) == 0 {
+				outs := append([]sim.Outcome{sim.Conflict, sim.ServerError, sim.Timeout, sim.ErrorAfter}, sim.DiscoveryFaults...)
+				idx, out := r.IntN(5), outs[r.IntN(len(outs))]
+				e.sigC.ResetCalls()
+				e.sigC.Fault(idx, out)
+				faulted = fmt.Sprintf("%s@%d", out, idx)
+				c.Count("signature_reconciles_with_api_fault", 1)
+			}
 			err := e.reconcileSignature(rev)
+			e.sigC.ClearFaults()
+			if faulted != "" {
+				steps = append(steps, map[string]any{"step": k, "injected": faulted})
+			}
 			v := e.condition(rev, "Verified")
 			steps = append(steps, map[string]any{"step": k, "controller": "signature", "err": fmt.Sprint(err), "verified_after": v, "validator_calls": e.val.calls})
 			c.Count("signature_reconciles", 1)
